@@ -103,6 +103,23 @@ def first_parse_names(text, comps):
     return diff or None
 
 
+def binary_payloads(text):
+    """the decoded payloads of the VALUE=BINARY lines of a text (None: some payload is not base64)"""
+    import base64
+    import binascii
+    import collections
+    from . import c09 as C09
+    out = collections.Counter()
+    for l in C09.logical_lines(text):
+        head, _, val = l.rpartition(":")
+        if ";VALUE=BINARY" in head.upper() and "BASE64" in head.upper():
+            try:
+                out[base64.b64decode(val.strip(), validate=True)] += 1
+            except (binascii.Error, ValueError):
+                return None
+    return out
+
+
 def gen_cases(ctx):
     rng = common.rng_for(ctx.seed, "c01")
     cases = []
@@ -178,6 +195,13 @@ def run(ctx, res):
             if all(isinstance(s, str) for s in sers) and sers:
                 s1 = "".join(sers)
                 row["s1"] = s1
+                if kind in ("fixture", "generated"):
+                    # inline attachments: the bytes a BINARY line carries are the bytes the first serialisation carries
+                    pin, pout = binary_payloads(text), binary_payloads(s1)
+                    if pin and pin != pout and not any(getattr(c, "errors", None) for r_ in comps1 for c in r_.walk()):
+                        res.fail("C01 first parse: the payload of an inline BINARY attachment is not the one of the text "
+                                 "after parse and serialise", text[:1500],
+                                 observed=sorted(map(repr, (pout or {}).keys())), expected=sorted(map(repr, pin.keys())))
                 T.fresh_cache()
                 o2, log2, comps2 = T.impl_parse(s1, multiple=True)
                 row["o2"] = o2
